@@ -63,6 +63,9 @@ def main():
             print(o)
             return 2
         rc, o = sh(f"git -C {wt} apply {patch}")
+        if rc:  # written against an earlier HEAD: merge
+            rc, o = sh(f"git -C {wt} apply --3way {patch}")
+            out["patch_merged_3way"] = rc == 0
         out["patch_applies"] = rc == 0
         if rc:
             out["patch_error"] = o[-400:]
